@@ -61,15 +61,26 @@ SpendTx == <<F(4), F(2), C(1, 0)>> \o TxIn(0) \o <<C(2, 0)>> \o TxOut(22) \o TxO
 AllCmds == <<"version", "verack", "addr", "inv", "getdata", "notfound", "getblocks", "getheaders", "headers", "headers2",
              "tx", "txo1", "txo2", "block", "block2", "cmpctblock", "cmpctblock2", "cmpctblock3", "cmpctblock4", "getblocktxn", "getblocktxn1", "getblocktxn3", "blocktxn", "blocktxn2", "idle",
              "ping", "pong", "feefilter", "sendcmpct",
-             "sendheaders", "getaddr", "getmp", "getmpdone", "xauth", "authack", "filterload", "unknown", "frame">>
+             "sendheaders", "getaddr", "getmp", "getmpdone", "xauth", "authack", "filterload", "unknown", "frame",
+             \* block locators against a block tree with a dead side branch S1 - S2 that forks off below the active tip:
+             \* S side tip, P side block that is not the tip, SA / AS side tip first / last in a mixed list, U unknown hash,
+             \* T active tip, E / EA empty locator with the stop hash naming the side tip / an active block,
+             \* XS / XU ordinary locator with the stop hash naming the side tip / an unknown block
+             "getheadersS", "getheadersP", "getheadersSA", "getheadersAS", "getheadersU", "getheadersT", "getheadersE",
+             "getheadersEA", "getheadersXS", "getheadersXU",
+             "getblocksS", "getblocksP", "getblocksSA", "getblocksAS", "getblocksU", "getblocksT", "getblocksXS", "getblocksXU">>
 CmdSet == {AllCmds[i] : i \in 1..Len(AllCmds)}
-Wire(c) == CASE c = "headers2" -> "headers" [] c = "block2" -> "block" [] c \in {"cmpctblock2", "cmpctblock3", "cmpctblock4"} -> "cmpctblock"
+LocGH == [S |-> 1, P |-> 1, SA |-> 2, AS |-> 2, U |-> 1, T |-> 1, E |-> 0, EA |-> 0, XS |-> 2, XU |-> 2]   \* locator entries
+GHVar == {"getheaders" \o v : v \in DOMAIN LocGH}
+GBVar == {"getblocks" \o v : v \in DOMAIN LocGH \ {"E", "EA"}}
+LocLen(c) == LET v == CHOOSE w \in DOMAIN LocGH : c \in {"getheaders" \o w, "getblocks" \o w} IN LocGH[v]
+Wire(c) == CASE c \in GHVar -> "getheaders" [] c \in GBVar -> "getblocks" [] c = "headers2" -> "headers" [] c = "block2" -> "block" [] c \in {"cmpctblock2", "cmpctblock3", "cmpctblock4"} -> "cmpctblock"
              [] c \in {"txo1", "txo2"} -> "tx" [] c = "blocktxn2" -> "blocktxn"
              [] c \in {"getblocktxn1", "getblocktxn3"} -> "getblocktxn" [] OTHER -> c
 Orphans == {"headers2", "block2", "cmpctblock2"}
 \* blocktxn2 names a block this connection never heard of; idle is no message at all: the peer stays silent while the
 \* node's own tick runs (the timers of tick.go: getheaders, getdata for announced blocks).
-ContextOnly == {"txo2", "cmpctblock4", "blocktxn2", "idle"}   \* same grammar as another instance: only the valid instance is of interest
+ContextOnly == {"txo2", "cmpctblock4", "blocktxn2", "idle"} \cup GHVar \cup GBVar   \* same grammar as another instance: only the valid instance is of interest
 
 Grammar(c) ==
   CASE c = "version" -> <<F(4), F(8), F(8), F(26), F(26), F(8)>> \o LB(15) \o <<F(4), F(1)>>
@@ -93,6 +104,7 @@ Grammar(c) ==
     [] c = "getblocktxn3" -> <<F(32), C(3, 0), V(0, 4), V(1, 4), V(0, 4)>>       \* absolute 0, 2, 3
     [] c \in {"blocktxn", "blocktxn2"} -> <<F(32), C(1, 0)>> \o SpendTx
     [] c = "idle" -> << >>
+    [] c \in GHVar \cup GBVar -> <<F(4), C(LocLen(c), 32)>> \o [i \in 1..LocLen(c) |-> F(32)] \o <<F(32)>>
     [] c \in {"ping", "pong", "feefilter", "unknown", "frame"} -> <<F(8)>>
     [] c = "sendcmpct" -> <<F(1), F(8)>>
     [] c = "getmp" -> <<C(2, 8), F(8), F(8)>>
@@ -229,6 +241,7 @@ DefectPaths(c) ==
   \cup (IF c = "cmpctblock" /\ "CmpctSameSid" \in Defects THEN {P(<<"~rcv", "+c", "-c", "+tx", ".">>, "ok")} ELSE {}) \* cblk.go: return with TxMutex held
   \cup (IF c = "cmpctblock" /\ "CmpctPrefilledIdx" \in Defects THEN {P(<<"~rcv", "+c", "-c", "!">>, "panic")} ELSE {}) \* cblk.go: idx range-checked before "+= exp"
   \cup (IF c = "cmpctblock" /\ "CmpctTxSize" \in Defects THEN {P(<<"~rcv", "+c", "-c", "!">>, "panic")} ELSE {})
+  \cup (IF c = "getheaders" /\ "GetHeadersRecoverReturn" \in Defects THEN {P(<<"+rcv", "-rcv", "+idx", ".">>, "ok")} ELSE {}) \* hdrs.go: the deferred function is what unlocks BlockIndexAccess
   \cup (IF c = "getblocktxn" /\ "GetBlockTxnIdx" \in Defects THEN {P(<<"+cblk", "-cblk", "!">>, "panic")} ELSE {})
   \cup (IF c = "blocktxn" /\ "BlkTxnNoColLock" \in Defects THEN {P(<<"~rcv", "+c", "#">>, "ok")} ELSE {})   \* Misbehave() called with c.Mutex still held
   \cup (IF c = "blocktxn" /\ "BlockTxnMissing" \in Defects THEN {P(<<"~rcv", "+c", "-c", "!">>, "panic")} ELSE {})
